@@ -53,7 +53,12 @@ GenHolder(plain) == <<"dc", "GH", << <<"a", GBox(<<"int">>), <<"req">>, <<>> >>,
                                       <<"c", <<"opt", GBox(<<"list", <<"str">> >>)>>, <<"val", None>>, <<>> >>,
                                       <<"d", <<"list", GBox(<<"opt", <<"text", "decimal">> >>)>>, <<"fac", L(<<>>)>>, <<>> >> >>,
                      IF plain THEN << <<"mixin", "plain">> >> ELSE <<>> >>
-Types1G == { GenHolder(TRUE), GenHolder(FALSE), GBox(<<"datetime">>), GBox(<<"union", << <<"int">>, <<"list", <<"int">> >> >> >>) }
+\* the type variable bound to classes that live in ANOTHER top-level module than the generic class and its holder
+ForeignItem == <<"dc", "Item", << <<"sku", <<"str">>, <<"req">>, <<>> >>, <<"n", <<"int">>, <<"val", I(1)>>, <<>> >> >>, << <<"mixin", "plain">>, <<"module", "shapes">> >> >>
+ForeignEnum == <<"enum", "Shade", "Enum", << <<"DARK", S("d")>>, <<"LIGHT", S("l")>> >>, << <<"module", "shapes">> >> >>
+ForeignHolder(arg) == <<"dc", "FHold", << <<"b", GBox(arg), <<"req">>, <<>> >> >>, <<>> >>
+Types1G == { GenHolder(TRUE), GenHolder(FALSE), GBox(<<"datetime">>), GBox(<<"union", << <<"int">>, <<"list", <<"int">> >> >> >>),
+             ForeignHolder(ForeignItem), ForeignHolder(ForeignEnum), GBox(ForeignItem) }
 Types == IF Depth = 0 THEN Leaves ELSE IF Depth = 1 THEN Types1 \cup Types1N \cup Types1S \cup Types1U \cup Types1I \cup Types1G ELSE Types2
 FalsyLeaves == { <<"int">>, <<"float">>, <<"bool">>, <<"str">>, <<"bytes">>, <<"timedelta">>, <<"text", "decimal">>, <<"text", "fraction">> }
 AllTypes == Types \cup { Holder(t) : t \in Types } \cup { PlainHolder(t) : t \in Types }
